@@ -314,4 +314,88 @@ structure WF (cfg : Cfg) (m0 : Mem) : Prop where
   seq : ∀ t, cfg.isGrow t = true → SeqCorrect cfg.imm (cfg.prog t) (cfg.arg t)
   reader : ∀ t, cfg.isGrow t = false → ReadOnly (cfg.prog t) = true
 
+/-- Linearizability of the grows of a state (observed through its trace): there is a total order of the
+    grows that took effect — duplicate-free, containing every completed grow and only invoked ones,
+    consistent with real time (a grow that returned before another was invoked comes first) — such that
+    every returned value is the one the specification of memory.grow gives when the grows are applied one
+    after the other in that order, and (whenever no grow is inside its critical section) the descriptor's
+    page count is the result of that sequential application.  `order` is newest-first. -/
+def Linearizable (cfg : Cfg) (m0 : Mem) (s : Sh × (Tid → Loc)) : Prop :=
+  ∃ order : List Tid,
+    order.Nodup ∧
+    (∀ t v, cfg.isGrow t = true → Ev.res t v ∈ s.1.trace → t ∈ order) ∧
+    (∀ t, t ∈ order → cfg.isGrow t = true ∧ Ev.inv t ∈ s.1.trace) ∧
+    (∀ a b va, cfg.isGrow a = true → Older s.1.trace (Ev.res a va) (Ev.inv b) → b ∈ order → Older order a b) ∧
+    (∀ t v newer older, cfg.isGrow t = true → order = newer ++ t :: older → Ev.res t v ∈ s.1.trace →
+      v = retOf cfg m0.pages older t) ∧
+    (s.1.mutex = none → s.1.mem.pages = replay cfg m0.pages order)
+
+/-! ### data races on the descriptor -/
+
+/-- the descriptor access a thread is about to perform: (field, is-write) -/
+def nextAccess (cfg : Cfg) (t : Tid) (l : Loc) : Option (MFld × Bool) :=
+  match l.st with
+  | .run =>
+    match (cfg.prog t)[l.pc]? with
+    | some (.read _ f) => some (f, false)
+    | some (.write f _) => some (f, true)
+    | _ => none
+  | _ => none
+
+/-- Two threads are simultaneously about to perform conflicting plain accesses to the same field (at least
+    one a write).  Both steps are enabled, so nothing — in particular not the mutex — orders them. -/
+def Race (cfg : Cfg) (s : Sh × (Tid → Loc)) : Prop :=
+  ∃ t u f w1 w2, t ≠ u ∧ nextAccess cfg t (s.2 t) = some (f, w1) ∧ nextAccess cfg u (s.2 u) = some (f, w2) ∧
+    (w1 = true ∨ w2 = true)
+
+/-- the operation never reads `pages`/`size` (true of loads/stores, false of memory.size) -/
+def NoSizeRead (prog : List MStep) : Bool :=
+  prog.all fun
+    | .read _ .pages | .read _ .size => false
+    | _ => true
+
+/-! ### executable helpers (driver, `decide`d witnesses) -/
+
+/-- Run thread `t` for one *segment*, the unit the real-side scheduler (tools/harness/grow_sched.c) hands
+    out: up to (not including) the acquisition of the mutex, or — when parked there — from the acquisition
+    through the release, or to the end of the operation.  Returns the state and whether the thread turned
+    out to be blocked on the mutex. -/
+def segment (cfg : Cfg) (t : Tid) : Nat → Bool → Sh × (Tid → Loc) → (Sh × (Tid → Loc)) × Bool
+  | 0, _, s => (s, false)
+  | fuel + 1, first, s =>
+    let l := s.2 t
+    match l.st with
+    | .idle =>
+      match sched1 (sys cfg) s t 0 with
+      | some s' => segment cfg t fuel false s'
+      | none => (s, false)
+    | .run =>
+      match act cfg.imm (cfg.prog t) s.1.mem l.pc l.regs with
+      | .lock _ =>
+        if first then
+          match sched1 (sys cfg) s t 0 with
+          | some s' => segment cfg t fuel false s'
+          | none => (s, true)
+        else (s, false)
+      | .unlock _ | .ret _ | .abort =>
+        match sched1 (sys cfg) s t 0 with
+        | some s' => (s', false)
+        | none => (s, false)
+      | .cont _ _ _ =>
+        match sched1 (sys cfg) s t 0 with
+        | some s' => segment cfg t fuel false s'
+        | none => (s, false)
+      | .stuck => (s, false)
+    | _ => (s, false)
+
+/-- run a schedule of segments; collects the threads found blocked -/
+def runSegments (cfg : Cfg) : List Tid → Sh × (Tid → Loc) → List Tid → (Sh × (Tid → Loc)) × List Tid
+  | [], s, b => (s, b.reverse)
+  | t :: rest, s, b =>
+    let r := segment cfg t 200 true s
+    runSegments cfg rest r.1 (if r.2 && !b.contains t then t :: b else b)
+
+/-- `n` consecutive moves of thread `t` (first enabled successor each time) -/
+def moves (t : Tid) (n : Nat) : List (Tid × Nat) := List.replicate n (t, 0)
+
 end W2c2Verif.Model.Grow
